@@ -492,6 +492,17 @@ void myth_verif_desc_rel(void * th) {
   atomic_fetch_add(&g_desc_rel, 1);
 }
 
+void myth_verif_owner(int list_rank, const char * what) {
+  /* records and stacks are kept on per-worker lists that are not synchronised: the list that receives a
+     released resource must be the one of the worker executing the release */
+  vt_t * t = vt_get();
+  if (t->rank >= 0 && list_rank != t->rank) {
+    myth_verif_violation("ledger:released-to-foreign-worker-list",
+                         "a %s is being put on the unsynchronised free list of worker %d by code running on worker %d",
+                         what, list_rank, t->rank);
+  }
+}
+
 uint32_t myth_verif_desc_gen(void * th) {
   lent_t * e = ledger_find((uintptr_t)th, 0, 0);
   return e ? atomic_load(&e->gen) : 0;
